@@ -64,7 +64,7 @@ CHECKS = {
     level="exploration",
     technique="rapid alias-heavy generator over confusable fixture paths with identical self-identifying symbols; oracle = whole-first-segment alias rule (reference model) on observed object package IDs and reflected getter signatures, plus go/parser checks of the import block",
     text="Every reference position and spelling is exercised under alias tables built to collide (prefixes of aliases, of path segments, of template imports; equal last path elements; characters illegal in identifiers); the probe reads which package each symbol really came from.",
-    note="Same trusted base as C02. Aliases equal to a template import are excluded here (open known finding of C01). A non-compiling output counts as a C14 violation.",
+    note="Same trusted base as C02. Aliases equal to a package the generated code imports itself are part of the pools. A non-compiling output counts as a C14 violation.",
     ref="DESIGN.md §4 C14"),
  "C15": dict(
     level="exploration",
@@ -88,7 +88,7 @@ CHECKS = {
     level="exploration",
     technique="rapid-generated accepted configurations compiled and executed against the real runtime; model-based oracle: a DI interpreter written from the documentation predicts every object graph; comparison modulo a bijection of instance serial numbers",
     text="Batches of behavioural configurations (all creation methods, argument forms and positions, fields, calls, withers, receiver kinds, scopes, todo/failing dependencies) are compiled, linked with the pinned runtime and probed; every returned object must equal the predicted descriptor tree and every predicted failure must surface as an error.",
-    note="Trusts the DI interpreter (written from docs, cross-validated on the unchanged tree and against mutants), the fixture objects' self-description and the Go toolchain.",
+    note="Trusts the DI interpreter (written from docs, cross-validated on the unchanged tree and against 36 seeded changes), the fixture objects' self-description and the Go toolchain. Open known finding (14 keys): own-package symbols named like local variables of the generated constructor are shadowed; enumerated and reported as KNOWN-FINDING.",
     ref="DESIGN.md §4 C02"),
  "C04": dict(
     level="exploration",
@@ -124,7 +124,7 @@ CHECKS = {
     level="exploration",
     technique="rapid-generated valid-by-construction configurations + bounded feature lattice; oracle = go/format + go/parser + the real Go type checker and linker on the generated package inside a fixture module pinned to the repository's runtime version, then package initialisation in a probe binary",
     text="Thousands of accepted configurations per run (random batches over all documented features in normal and --stub mode, every single feature and feature pairs of a 50+-entry lattice) are compiled and initialised against the real runtime; any accepted configuration whose output is not gofmt-stable, does not type-check or panics in init is a violation.",
-    note="Trusts the Go toolchain as judge and the fixture universe (every named symbol exists with a compatible shape). Identifier pools exclude keywords/predeclared names (the property's precondition). Open known finding: aliases named exactly like a package the template itself imports.",
+    note="Trusts the Go toolchain as judge and the fixture universe (every named symbol exists with a compatible shape). Identifier pools exclude keywords/predeclared names (the property's precondition). No open known finding (the alias/template-import defect found here was repaired in the repository).",
     ref="DESIGN.md §4 C01"),
  "C18": dict(
     level="exploration",
@@ -173,7 +173,7 @@ def main():
             "kind_free_text": "Go harness: pgregory.net/rapid v1.3.0 generators + bounded-exhaustive enumerators + native go fuzzing, an independent reference model (harness/ref), end-to-end observation through the in-process build command (hook) / the real binary / compiled generated code linked with the pinned runtime",
         }],
         "checks": checks,
-        "notes": "Every command is ./run.sh <ID> <tier>; VERIF_SEED selects the rapid seeds; exit 0 held / 1 VIOLATION / 2 infrastructure or inconclusive. Known findings live in /verif/known_findings.json.",
+        "notes": "Every command is ./run.sh <ID> <tier> (quick 5-110 s, thorough 1-11 min per property on 16 cores); VERIF_SEED selects the rapid seeds; exit 0 held / 1 VIOLATION / 2 infrastructure or inconclusive. Known findings live in /verif/known_findings.json.",
         "not_applicable": na,
     }
     json.dump(m, open(os.path.join(HERE, "MANIFEST.json"), "w"), indent=1)
